@@ -1,0 +1,21 @@
+//go:build verif
+
+package regulator
+
+// VerifWaitingQueue returns a copy of the regulator's waiting queue.
+// Verification hook (build tag verif): read-only, not part of the API.
+func VerifWaitingQueue(r Regulator) []string {
+
+	rr, ok := r.(*regulator)
+	if !ok {
+		return nil
+	}
+
+	rr.mu.RLock()
+	defer rr.mu.RUnlock()
+
+	queue := make([]string, len(rr.waitingQueue))
+	copy(queue, rr.waitingQueue)
+
+	return queue
+}
